@@ -11,6 +11,7 @@ echo "| seeded change | suite with patch | demo with / without | quick check of 
 echo "|---|---|---|---|" >> $OUT
 for d in $DIRS; do
   id=$(basename $d); P=${id%%-*}
+  if grep -q '"void"' /verif/$d/meta.json 2>/dev/null; then echo "| $id | - | - | void: neutralised by a later repair of /repo (see meta.json) |" >> $OUT; echo "$id: void"; continue; fi
   SCR=/dev/shm/optyx-km-$$; rm -rf $SCR; mkdir -p $SCR; rsync -a --exclude .git --exclude __pycache__ /repo/ $SCR/
   if ! (cd $SCR && patch -p1 -s < /verif/$d/patch.diff); then echo "| $id | PATCH DOES NOT APPLY | | |" >> $OUT; rm -rf $SCR; continue; fi
   suite=$(cd $SCR && PYTHONPATH=$SCR/src /venv/bin/python -m pytest -q -p no:cacheprovider 2>&1 | tail -1 | cut -c1-40)
